@@ -49,6 +49,8 @@ def render_node(n: Node, top: bool = False) -> str:
         return s if top else f"({s})"
     if k in ("star", "plus", "opt"):
         return _atom(n[1]) + {"star": "*", "plus": "+", "opt": "?"}[k]
+    if k == "crep":
+        return _atom(n[1]) + "{" + n[2] + "}"
     if k == "rep":
         lo, hi = n[2], n[3]
         if hi is None:
@@ -204,7 +206,7 @@ class Sem:
             return all(self.node_nullable(c, nl) for c in n[1])
         if k == "alt":
             return any(self.node_nullable(c, nl) for c in n[1])
-        if k in ("star", "opt"):
+        if k in ("star", "opt", "crep"):
             return True
         if k == "plus":
             return self.node_nullable(n[1], nl)
@@ -284,8 +286,8 @@ class Sem:
             return out
         if k == "opt":
             return {i} | self._ends(node[1], i, u, chart)
-        if k in ("star", "plus", "rep"):
-            lo, hi = {"star": (0, None), "plus": (1, None)}.get(k, (node[2] if k == "rep" else 0, node[3] if k == "rep" else None))
+        if k in ("star", "plus", "rep", "crep"):
+            lo, hi = {"star": (0, None), "plus": (1, None), "crep": (0, None)}.get(k, (node[2] if k == "rep" else 0, node[3] if k == "rep" else None))
             cur = {i}
             cnt = 0
             while cnt < lo:
@@ -315,6 +317,85 @@ class Sem:
                     cnt += 1
             return out
         raise ValueError(k)
+
+    # -- derivation counting ------------------------------------------------
+    def derivation_counts(self, units: str, max_iter: int = 60) -> Any:
+        """(chart, W, converged): chart[(nt, i)] = {j: number of distinct derivation trees of
+        units[i:j] from nt}; W = total number of (IR node or sequence prefix, i, j, tree)
+        partial derivations - an upper bound (up to a constant) for the work of any chart
+        parser that keeps one item per distinct derivation.  Only meaningful for finitely
+        ambiguous grammars; converged=False signals that counts kept growing."""
+        n = len(units)
+        chart: dict[tuple[str, int], dict[int, int]] = {(k, i): {} for k in self.rules for i in range(n + 1)}
+        self._greedy = False
+        converged = False
+        for _ in range(max_iter):
+            changed = False
+            for k, rhs in self.rules.items():
+                for i in range(n, -1, -1):
+                    new = self._cnt(rhs, i, units, chart, None)
+                    if new != chart[(k, i)]:
+                        chart[(k, i)] = new
+                        changed = True
+            if not changed:
+                converged = True
+                break
+        acc = [0]
+        for k, rhs in self.rules.items():
+            for i in range(n + 1):
+                self._cnt(rhs, i, units, chart, acc)
+        return chart, acc[0], converged
+
+    def _cnt(self, node: Node, i: int, u: str, chart: Any, acc: Any) -> dict[int, int]:
+        k = node[0]
+        n = len(u)
+        out: dict[int, int] = {}
+        if k in ("lit", "blit", "bit", "rx", "brx"):
+            for j in self._ends(node, i, u, {}):
+                out[j] = 1
+        elif k == "nt":
+            out = dict(chart[(node[1], i)])
+        elif k == "seq":
+            cur = {i: 1}
+            for c in node[1]:
+                nxt: dict[int, int] = {}
+                for p, cp in cur.items():
+                    for j, cj in self._cnt(c, p, u, chart, acc).items():
+                        nxt[j] = nxt.get(j, 0) + cp * cj
+                cur = nxt
+                if acc is not None:
+                    acc[0] += sum(cur.values())
+                if not cur:
+                    break
+            out = cur
+        elif k == "alt":
+            for c in node[1]:
+                for j, cj in self._cnt(c, i, u, chart, acc).items():
+                    out[j] = out.get(j, 0) + cj
+        else:
+            lo, hi = {"star": (0, None), "plus": (1, None), "opt": (0, 1), "crep": (0, None)}.get(k, (node[2] if k == "rep" else 0, node[3] if k == "rep" else None))
+            cur = {i: 1}
+            cnt = 0
+            limit = hi if hi is not None else lo + n + 1
+            if lo == 0:
+                out = {i: 1}
+            while cnt < limit and cur:
+                nxt = {}
+                for p, cp in cur.items():
+                    for j, cj in self._cnt(node[1], p, u, chart, acc).items():
+                        nxt[j] = nxt.get(j, 0) + cp * cj
+                cur = nxt
+                cnt += 1
+                if acc is not None:
+                    acc[0] += sum(cur.values())
+                if cnt >= lo:
+                    for j, cj in cur.items():
+                        out[j] = out.get(j, 0) + cj
+                if hi is None and cnt > lo + n + 1:
+                    break
+        if acc is not None:
+            acc[0] += sum(out.values())
+        return out
 
     # -- enumerator ------------------------------------------------------------
     def enumerate_words(self, start: str = "start", max_len: int = 6, cap: int = 400,
@@ -358,8 +439,8 @@ class Sem:
             return out
         if k == "opt":
             return {""} | self._lang(node[1], lang, L, cap, alpha)
-        if k in ("star", "plus", "rep"):
-            lo, hi = {"star": (0, None), "plus": (1, None)}.get(k, (node[2] if k == "rep" else 0, node[3] if k == "rep" else None))
+        if k in ("star", "plus", "rep", "crep"):
+            lo, hi = {"star": (0, None), "plus": (1, None), "crep": (0, None)}.get(k, (node[2] if k == "rep" else 0, node[3] if k == "rep" else None))
             body = self._lang(node[1], lang, L, cap, alpha)
             cur = {""}
             for _ in range(lo):
@@ -451,8 +532,8 @@ class Sem:
             return out
         if k == "opt":
             return {i} | self._match(node[1], kids, i)
-        if k in ("star", "plus", "rep"):
-            lo, hi = {"star": (0, None), "plus": (1, None)}.get(k, (node[2] if k == "rep" else 0, node[3] if k == "rep" else None))
+        if k in ("star", "plus", "rep", "crep"):
+            lo, hi = {"star": (0, None), "plus": (1, None), "crep": (0, None)}.get(k, (node[2] if k == "rep" else 0, node[3] if k == "rep" else None))
             cur = {i}
             cnt = 0
             while cnt < lo:
